@@ -626,6 +626,20 @@ func (env *evalEnv) call(v *ast.CallExpr) SV {
 				return SV{t: tb.Le(r, tb.Int(-100000)), typ: boolT}
 			}
 			return SV{t: tb.Lt(r, tb.Int(0)), typ: boolT}
+		case "mapkey":
+			// mapkey(m, n): the key iteration n of a complete range over the Go map m yields (option map-ranges-complete)
+			if len(v.Args) != 2 {
+				env.fail("mapkey(m, n) takes a map and an index")
+			}
+			mv := env.eval(v.Args[0])
+			nv := env.eval(v.Args[1])
+			mt, ok := mv.typ.Underlying().(*types.Map)
+			if !ok {
+				env.fail("mapkey: %s is not a map", exprString(v.Args[0]))
+			}
+			_, has, _ := e.mapRegs(mt)
+			row := tb.Select(e.reg(env.st, has), mv.t)
+			return SV{t: e.mapEnumKey(row, nv.t), typ: mt.Key()}
 		case "yieldcount":
 			if e.yieldParam == nil {
 				env.fail("yieldcount() outside a unit with a `yields` clause")
